@@ -42,6 +42,7 @@ def s_run(rng, budget_words=2600):
         j["spawn"] = rng.randint(1, 5)  # named / scoped / nested caller threads
     if rng.random() < 0.2:
         j["fault"] = rng.randint(1, 3)  # caught illegal calls between draws and/or a victim thread that dies
+    wall = rng.random() < 0.1, rng.uniform(0.05, 0.5), rng.choice([1, 3600, 400 * 86400, 2_000_000_000])
     # keep the run inside the per-run budget: first shrink the biggest size, then D
     while words_of(j) > budget_words:
         m = max(j["sizes"])
@@ -54,6 +55,9 @@ def s_run(rng, budget_words=2600):
             break
     if j["K"] <= 4 and rng.random() < 0.125:
         j["battery"] = 1
+    if wall[0]:
+        from .runner import predicted_cost
+        j["wallstep"] = [int(wall[1] * predicted_cost(j) * 1e9), wall[2]]  # the wall clock steps backwards during the run
     if rng.random() < 0.25:
         j["ops"] = rng.getrandbits(31) | 1  # other public API calls between the draws
     if rng.random() < 0.25:
@@ -85,7 +89,7 @@ def m_run(rng, reps):
     return j
 
 
-NOPS = 28  # keep in step with sim/src/ops.rs (20..27: the caller's own use of the rand crate)
+NOPS = 36  # keep in step with sim/src/ops.rs (20..27: the caller's own use of the rand crate)
 
 
 def g_run(rng):
@@ -117,6 +121,23 @@ def c_run(rng):
     return _job("C", rng, K=rng.choice([2, 4, 8, 16]), D=rng.choice([2, 4, 8]), sizes=[rng.choice([7, 8, 8, 9])],
                 types=rng.choice(["lut", "static", "both"]), main=rng.randint(0, 1), warm=rng.randint(0, 1), preempt=rng.choice(PREEMPT),
                 clockq=rng.choice(CLOCKQ[1:]), gens=rng.choice([1, 1, 2]), **{"yield": rng.randint(0, 1)})
+
+
+WALL_BACK_S = [1, 3600, 400 * 86400, 2_000_000_000]  # one second .. further back than the UNIX epoch
+
+
+def k_run(rng):
+    """Clock faults: the wall clock (SystemTime) is stepped backwards once, somewhere in the first half of the run
+    (by a second, an hour, a year, or to before the UNIX epoch), optionally on top of a coarse clock; Instant stays
+    monotonic, as its contract says."""
+    j = _job("K", rng, K=rng.choice([1, 2, 4]), D=rng.choice([24, 32, 48]), sizes=[rng.choice([7, 8]), rng.choice([0, 2, 5, 6])],
+             types=rng.choice(["lut", "static", "both"]), main=rng.randint(0, 1), warm=rng.randint(0, 1), preempt=rng.choice(PREEMPT),
+             gens=rng.choice([1, 1, 2]), **{"yield": rng.randint(0, 1)})
+    if rng.random() < 0.5:
+        j["clockq"] = rng.choice(CLOCKQ)
+    from .runner import predicted_cost
+    j["wallstep"] = [int(rng.uniform(0.05, 0.5) * predicted_cost(j) * 1e9), rng.choice(WALL_BACK_S)]
+    return j
 
 
 def o_run(rng, op):
@@ -234,8 +255,12 @@ def make_plan(seed, tier):
         # C — coarse clock
         for _ in range(6):
             jobs.append(c_run(rng))
-        # T — more than 255 threads over the life of the process
+        # T — more than 255 threads over the life of the process; more than 64 caller threads alive at once
         jobs.append(t_run(rng, 16, 17))
+        jobs.append(t_run(rng, 72, 1))
+        # K — clock faults: the wall clock steps backwards during the run
+        for _ in range(4):
+            jobs.append(k_run(rng))
         # X — cross-size cycles around the largest tables
         for _ in range(8):
             jobs.append(x_run(rng))
@@ -278,8 +303,10 @@ def make_plan(seed, tier):
             jobs.append(g_run(rng))
         for _ in range(48):
             jobs.append(c_run(rng))
-        for k, g in ((16, 17), (16, 33), (8, 40), (4, 70), (2, 130), (1, 260)):
+        for k, g in ((16, 17), (16, 33), (8, 40), (4, 70), (2, 130), (1, 260), (72, 1), (72, 3), (136, 1), (40, 4)):
             jobs.append(t_run(rng, k, g))
+        for _ in range(32):
+            jobs.append(k_run(rng))
         for _ in range(64):
             jobs.append(x_run(rng))
         for typ in ("lut", "static"):
